@@ -368,5 +368,49 @@ fn e_unary_plus_identity() {
     assert!(matches!(r, Ok(SqlValue::Double(x)) if x.to_bits() == f.to_bits()), "E-unary#plus_identity"); forget(r);
 }
 
+// --------------------------------------------------------------------------------------------
+// E-between: eval_between_static (evaluator/core.rs) on integer / NULL operands:
+//   x BETWEEN a AND b  ==  (x >= a) AND (x <= b)   in three-valued logic, NOT BETWEEN its Kleene negation,
+//   SYMMETRIC: the bounds are ordered first (when both are non-NULL).
+// --------------------------------------------------------------------------------------------
+use crate::evaluator::core::eval_between_static;
+
+fn opt_int() -> (SqlValue, Option<i64>) {
+    if kani::any() { let v: i64 = kani::any(); (SqlValue::Integer(v), Some(v)) } else { (SqlValue::Null, None) }
+}
+/// Kleene comparison on optional integers: 0 = F, 1 = T, 2 = NULL
+fn k_ge(a: Option<i64>, b: Option<i64>) -> u8 { match (a, b) { (Some(x), Some(y)) => (x >= y) as u8, _ => 2 } }
+fn k_le(a: Option<i64>, b: Option<i64>) -> u8 { match (a, b) { (Some(x), Some(y)) => (x <= y) as u8, _ => 2 } }
+fn k_not(a: u8) -> u8 { if a == 2 { 2 } else { 1 - a } }
+
+fn opt_int_c(null: bool) -> (SqlValue, Option<i64>) {
+    if null { (SqlValue::Null, None) } else { let v: i64 = kani::any(); (SqlValue::Integer(v), Some(v)) }
+}
+/// NULL pattern of (x, a, b) is case-split outside the solver; payloads, NOT and SYMMETRIC are symbolic
+macro_rules! ebetween {
+    ($name:ident, $xn:expr, $an:expr, $bn:expr) => {
+        #[kani::proof]
+        #[kani::unwind(40)]   // std::mem::swap of two SqlValue (SYMMETRIC with reversed bounds) copies in a small loop
+        #[kani::stub(alloc::fmt::format, fmt_stub)]
+        fn $name() {
+            let (x, ox) = opt_int_c($xn); let (a, oa) = opt_int_c($an); let (b, ob) = opt_int_c($bn);
+            let negated: bool = kani::any(); let symmetric: bool = kani::any();
+            let r = eval_between_static(&x, &a, &b, negated, symmetric, SqlMode::default());
+            // SYMMETRIC orders the bounds when both are known
+            let (lo, hi) = match (symmetric, oa, ob) { (true, Some(p), Some(q)) if p > q => (ob, oa), _ => (oa, ob) };
+            let between = kleene_and(k_ge(ox, lo), k_le(ox, hi));
+            let want = if negated { k_not(between) } else { between };
+            assert!(is_tv(&r, want), "E-between#ge_and_le_three_valued");
+            forget(r);
+        }
+    };
+}
+ebetween!(e_between_vvv, false, false, false);
+ebetween!(e_between_nvv, true, false, false);
+ebetween!(e_between_vnv, false, true, false);
+ebetween!(e_between_vvn, false, false, true);
+ebetween!(e_between_vnn, false, true, true);
+ebetween!(e_between_nnn, true, true, true);
+
 // concrete-playback replay slot (see lib/kani_run.py: replay); empty except while a counterexample is being replayed
 include!("ops.playback.rs");
